@@ -117,7 +117,14 @@ def run_history(sel, a, on_step=None):
             args = (sel["fixed"]["n"][ks],) if "n" in sel.get("fixed", {}) else (a["n%d" % ks],)
         style = step.get("style", "call")
         r = w.run_real(style, args, entry=tuple(step["entry"]) if step.get("entry") else None, path=step.get("path"))
-        p = w.run_plain(args, entry=tuple(step["entry"]) if step.get("entry") else None, path=step.get("path"))
+        if step.get("expect_dds_error"):
+            # an ill-formed evaluation: dds must refuse it with a DDS error (never another exception, never a value)
+            if r[0] != "dds":
+                return (False, "step %d: expected a DDS error, dds returned %r" % (k, r[:2]), w)
+            if step.get("expect_no_exec") and tick.LOG:
+                return (False, "step %d: rejected, but user code ran first: %r" % (k, list(tick.LOG)), w)
+            continue
+        p = w.run_plain(args, entry=tuple(step["entry"]) if step.get("entry") else None, path=step.get("path"), style=style if style == "load" else None)
         if on_step is not None:
             res = on_step(k, step, w, r, p)
             if res is not None:
